@@ -262,20 +262,35 @@ func (c *Canon) selPhi(v *ssa.Phi, d int) (string, bool) {
 		base[[2]int{ce.blk.Index, ce.succ}] = true
 	}
 	groups := map[string]map[string]bool{}
+	rxs := c.rotExits(v)
+edges:
 	for i, e := range v.Edges {
-		val := c.termD(e, d+1)
 		pred := blk.Preds[i]
+		from := pred // the block whose conditions say when this input arrives
+		natural := false
+		for _, rx := range rxs {
+			if pred == rx.rl.pre {
+				continue edges // merged with the latch input below
+			}
+			if pred == rx.rl.latch {
+				e, from, natural = rx.carried, rx.rl.pre, true
+			}
+		}
+		val := c.termD(e, d+1)
 		var atoms []string
-		for _, ce := range f.context(pred, rej) {
+		for _, ce := range f.context(from, rej) {
 			if !base[[2]int{ce.blk.Index, ce.succ}] {
 				atoms = append(atoms, ce.atom)
 			}
 		}
 		alts := [][]string{nil}
-		if iff := f.ifOf(pred); iff != nil && pred.Succs[0] != pred.Succs[1] {
+		if iff := f.ifOf(pred); iff != nil && pred.Succs[0] != pred.Succs[1] && !natural {
 			for k, sc := range pred.Succs {
 				if sc != blk {
 					continue
+				}
+				if f.isLoopExit(pred, k) {
+					continue // the loop ran out: no condition of its own
 				}
 				if la, ok := f.loopCondAtom(pred, iff, k); ok {
 					alts = [][]string{{la}}
